@@ -4,6 +4,7 @@ import (
 	"fmt"
 	"math"
 	"reflect"
+	"strconv"
 	"strings"
 
 	"github.com/tormoder/fit"
@@ -189,6 +190,11 @@ func CompareMsgs(where, slot string, g uint16, idx int, exp, got []ref.Val, skip
 	}
 	for i := range exp {
 		if skip != nil && skip(i) {
+			continue
+		}
+		if strconv.IntSize == 32 && exp[i].K == 't' && (exp[i].Off > math.MaxInt32 || exp[i].Off < math.MinInt32) {
+			// A zone offset of more than 68 years cannot be expressed by time.FixedZone where int is
+			// 32 bits wide; what a decoder should do with such a local timestamp there is not defined.
 			continue
 		}
 		if !exp[i].Equal(got[i]) {
